@@ -12,4 +12,5 @@ INVARIANT DensityShape
 INVARIANT ViscosityShape
 INVARIANT NernstZero
 INVARIANT Emit
+INVARIANT EmitCatalog
 CHECK_DEADLOCK FALSE
